@@ -202,6 +202,13 @@ def stream_cases(prop, tier, seed, sched_cases=()):
                         add(cap=cap, level=level, ae=hdr, abs=a, method=method, parts=parts,
                             prog=[["write", 5], ["flush", 0], ["write", 40], ["drop", 0]], payload=rng.choice(["ramp", "zeros", "rand"]),
                             pseed=rng.randrange(1 << 30), extra=1)
+        # sequences of builder calls: only the last with_gzip_level counts
+        for hdr, a in AE_CHOICES[:6]:
+            for seq in ([0, 5], [0, 0, 9], [7, 0], [3, 0, 1], [9, 1], [0, 6, 0]):
+                for method in ("GET", "HEAD"):
+                    add(cap=rng.choice([1, 7, 4096]), levels=seq[:-1], level=seq[-1], ae=hdr, abs=a, method=method,
+                        parts=rng.random() < 0.5, prog=[["write", 12], ["flush", 0], ["write", 30], ["drop", 0]],
+                        payload="ramp", extra=1)
         # Accept-Encoding renderings from the C16 generator
         nc = neg_cases("quick", seed)
         rng.shuffle(nc)
